@@ -247,6 +247,86 @@ pub fn check(args: &[String]) -> i32 {
             }
         }
     }
+    // --- fresh-process phase: many tiny workers, so that many runs are the
+    // FIRST thing that happens in their process (lazily initialised globals,
+    // once-cells and "first caller wins" state outside the provider are only
+    // exercised then; inside a long-lived worker the simulated restart does
+    // not reach them). Indices come from a separate range.
+    let fresh_procs: u64 = arg(args, "--fresh-processes")
+        .and_then(|s| s.parse().ok())
+        .unwrap_or(if tier == "thorough" { 2000 } else { 120 });
+    let mut fresh_runs = 0u64;
+    if !harness_error {
+        let base = 1_000_000_000u64;
+        let mut next = 0u64;
+        let mut running: Vec<(String, std::process::Child)> = vec![];
+        let total = fresh_procs * bins.len() as u64;
+        while (next < total || !running.is_empty()) && !harness_error {
+            while next < total && running.len() < workers {
+                let bin = &bins[(next % bins.len() as u64) as usize];
+                let start = base + (next / bins.len() as u64) * 2;
+                let out = format!("{tmp}/f{next}.json");
+                match Command::new(bin)
+                    .args([
+                        "worker", "--prop", &prop, "--tier", &tier, "--seed", &seed.to_string(),
+                        "--start", &start.to_string(), "--count", "2", "--out", &out,
+                        "--deadline-ms", "60000",
+                    ])
+                    .stdout(Stdio::inherit())
+                    .stderr(Stdio::inherit())
+                    .spawn()
+                {
+                    Ok(c) => running.push((out, c)),
+                    Err(e) => {
+                        println!("HARNESS-ERROR cannot start {bin}: {e}");
+                        harness_error = true;
+                    }
+                }
+                next += 1;
+            }
+            let mut i = 0;
+            let mut progressed = false;
+            while i < running.len() {
+                match running[i].1.try_wait() {
+                    Ok(Some(st)) => {
+                        let (out, _) = running.remove(i);
+                        progressed = true;
+                        if st.success() {
+                            match std::fs::read_to_string(&out).ok().and_then(|s| serde_json::from_str::<Value>(&s).ok()) {
+                                Some(d) => {
+                                    fresh_runs += d["runs"].as_u64().unwrap_or(0);
+                                    docs.push((out, d));
+                                }
+                                None => {
+                                    println!("HARNESS-ERROR worker wrote no result: {out}");
+                                    harness_error = true;
+                                }
+                            }
+                        } else {
+                            println!("HARNESS-ERROR worker exited with {st}");
+                            harness_error = true;
+                        }
+                    }
+                    Ok(None) => i += 1,
+                    Err(e) => {
+                        println!("HARNESS-ERROR worker wait: {e}");
+                        harness_error = true;
+                        i += 1;
+                    }
+                }
+            }
+            if !progressed {
+                std::thread::sleep(std::time::Duration::from_millis(5));
+            }
+            if std::time::Instant::now() > hard_deadline + std::time::Duration::from_secs(300) {
+                println!("HARNESS-ERROR fresh-process phase did not finish in time");
+                for (_, c) in running.iter_mut() {
+                    let _ = c.kill();
+                }
+                harness_error = true;
+            }
+        }
+    }
     if harness_error {
         let _ = std::fs::remove_dir_all(&tmp);
         return 2;
@@ -362,6 +442,11 @@ pub fn check(args: &[String]) -> i32 {
         ],
     });
     coverage["operations_per_kind"] = to_json(&op_kinds);
+    coverage["runs_in_fresh_processes"] = json!({
+        "processes": fresh_procs * bins.len() as u64,
+        "runs": fresh_runs,
+        "why": "each of these worker processes executes two runs only, so the first of them is the first use of the library in its process (lazily initialised globals outside the provider)"
+    });
     coverage["simulated_process_restart_available"] = json!(!reset_unavailable);
     if reset_unavailable {
         println!("note: the process-wide provider is not stored in a resettable LazyLock; runs start warm (no simulated process restart)");
